@@ -118,7 +118,7 @@ func c10Check(r *vkit.Run, in c10Input, replay []int) {
 		return
 	}
 	st := vsched.Explore(in.Bound, 0, body, func(*vsched.Ctx) bool { return !r.Stop() })
-	r.Step(int(st.Points))
+	r.Step(int(st.Points) + int(st.Executions))
 	r.Count("map_order_executions", st.Executions)
 	r.Count("executions_with_rotated_iteration", st.Deviating)
 	if int64(st.MaxPoints) > r.Counters["max_map_iterations_per_eval"] {
